@@ -38,9 +38,20 @@ add("C01",
     "hash-order outcomes of dedup_head; staged invariant preserved by every resolved staging operation; at most one new content "
     "path per new digest. Tied to the code by per-step refinement of generated histories (model applied to the implementation's own "
     "pre-state must equal its post-state, evaluated in Coq) and searched with an independent OCFL validator (vplib/ocflv.py) plus the "
-    "structural clauses of the property after every commit/upgrade/purge.",
-    "Trusted: Coq kernel, Model/Inventory.v + Model/Staging.v, abs (vplib/absinv.py), harness, ocflv.py. File-system clauses "
-    "(stray files, empty directories, version inventories/sidecars, storage root) are decided by the search on executed histories only.",
+    "structural clauses of the property after every commit/upgrade/purge. File-system clauses proved for the protocol model "
+    "(Model/Commit.v + Model/CommitAbs.v): for every tree satisfying commit_pre + commit_pre_tree the fault-free commit (first and "
+    "further versions, dedup, orphans, emptied directories, delete-only versions, declaration swap) leaves an object root that "
+    "abstracts to a written_by_rocfl tree (every version directory with inventory + sidecar, head copy = root copy, content files "
+    "<=> manifest <=> states, no empty directory, no stray entry) which the transcription of rocfl's validator accepts "
+    "(C01_commit_yields_written_object); the object stays so over histories of commits (C01_reachable_tree_valid); purge leaves "
+    "nothing of the object and no emptied ancestor (C01_purge_leaves_nothing). The boolean hypotheses are evaluated inside Coq on the "
+    "abstraction of the REAL pre-state of every successful commit of the generated histories, with written_by_rocflb of the real "
+    "post-state and model result = real result.",
+    "Trusted: Coq kernel, Model/Inventory.v + Model/Staging.v + Model/Commit.v + Model/CommitAbs.v, abs (vplib/absinv.py, vplib/commitabs.py), "
+    "harness, ocflv.py. Decided by the search on executed histories only: storage-root files and layout placement (also C11/C12), "
+    "upgrade_object's own staging step, operations under faults (C04/C05), staging operations at tree level. Known finding "
+    "failed-commit-dedup-persisted: a commit refused after its de-duplication step leaves a staged inventory outside the staged "
+    "invariant (classifier Model/KnownC01.v, witness theorem, 4 scripted histories).",
     "machine-checked proof in Coq (invariant by induction over operations) + per-step refinement correspondence + independent validator")
 
 add("C09",
